@@ -27,7 +27,7 @@ CHECKS["C16"] = dict(
     level_text=("Generated-input search: tens of thousands of histories against a real ontology.Ontology on an in-memory gorp DB "
                 "(fresh per case); every mutating step is followed by a comparison of the raw relationship and resource tables "
                 "with the model, every traversal is compared with a plain graph search. Sampled, not exhaustive; no absence claim."),
-    level_note="Trusted: the adjacency-map model and DFS in the harness, gorp.NewRetrieve full-table scans used as the raw view, rapid, the Go toolchain. Multi-node propagation of ontology changes and the search/index services built on top are outside the check.",
+    level_note="Added later: a second relationship type (cycle check spans types, traversals and delete-of-type do not), transactions whose storage commit is refused, relationship indexes that fail to populate (scan fallback). Trusted: the adjacency-map model and DFS in the harness, gorp.NewRetrieve full-table scans used as the raw view, rapid, the Go toolchain. Multi-node propagation of ontology changes and the search/index services built on top are outside the check.",
     tests=[dict(name="TestC16", quick=dict(cases=10000, shards=4, shrinktime="15s"),
                 thorough=dict(cases=20000, shards=16, timeout=1500))],
 )
